@@ -457,6 +457,36 @@ PROPS['C18'] = dict(
                       'hist:const-strings', 'hist:extra-capacity', 'hist:copy'],
 )
 
+c16 = B('c16_pool', 'c16_pool.cpp', 'asan')
+PROPS['C16'] = dict(
+    title='The pool allocator hands out aligned, disjoint, stable blocks',
+    units=[
+        U(c16, 'rc', 1500, 60000, wq=4, wt=6, label='c16-rc', asan_options='detect_leaks=0'),
+        U(c16, 'prng', 12000, 800000, wq=8, wt=10, label='c16-prng', asan_options='detect_leaks=0'),
+    ],
+    rule='cases: operation sequences (1..320 steps, generated and shrunk as one value) over up to 3 allocator handles: create pool '
+         '(chunk capacity 64/256/1024/65536, simple or adaptive chunk policy, own or caller-supplied base allocator, optional '
+         'user buffer: 64..4096 bytes, aligned or misaligned), Malloc, Realloc (null pointer, last / not last / older block, '
+         'shrink, same, grow, to 0), Clear, copy-construct, copy-assign (also self and onto a moved-from handle), '
+         'move-construct, move-assign, destroy; sizes from {0, 1..48, 1/7/8/9/15/16/17, cap-8/cap-1/cap/cap+1/2cap/cap/2, '
+         'remaining-8/remaining-1/remaining/remaining+1 of the current chunk, random up to 200 KiB}. Oracle (model = live blocks '
+         'per pool + chunks recorded by a tracking base allocator): non-null results 8-aligned, wholly inside one chunk past '
+         'its header (or the user buffer), disjoint from every live block; every live block carries a byte pattern re-verified '
+         'after EVERY step; Realloc keeps the first min(old,new) bytes, returns the same pointer when the new size fits, grows '
+         'in place exactly when the block is the most recent allocation and the increment fits its chunk; zero-size requests '
+         'return null; Size() == model sum of aligned hand-outs since the last Clear (through every copy), Size()<=Capacity(), '
+         'Capacity() bounded by live blocks and by what was supplied; Shared(); chunks are returned exactly when the last copy '
+         'dies; the user buffer is never freed. Non-trivial: a chunk overflow, an in-place or cross-chunk realloc of the last '
+         'block, or >= 2 copies.',
+    min_evaluations=dict(quick=30000, thorough=500000),
+    required_classes=['event:chunk-overflow', 'event:realloc-in-place', 'event:realloc-last-across-chunk', 'event:realloc-not-last',
+                      'event:clear', 'event:copy-construct', 'event:copy-assign', 'event:move-assign', 'event:last-copy-destroyed',
+                      'event:user-buffer', 'event:user-buffer-misaligned', 'policy:simple', 'policy:adaptive'],
+    technique='stateful model-based property testing (rapidcheck + seeded PRNG operation sequences) against a block/chunk ledger',
+    assumptions=['leak detection is off for this harness: a pool copied before its first chunk allocation (user buffer, no base allocator) '
+                 'leaks its 1-byte owned base-allocator object - outside the statement of C16 (see DESIGN.md section 5)'],
+)
+
 
 def tool_versions():
     out = {}
